@@ -8,19 +8,22 @@ for d in sorted(glob.glob(os.path.join(HERE, 'seeded', '*'))):
     m = json.load(open(os.path.join(d, 'meta.json')))
     summ = (m.get('summary') or '').replace('\n', ' ').replace('|', '/')
     summ = re.sub(r'\s+', ' ', summ)[:170]
-    rows.append('| %s | %s | %s | %s |' % (m['id'], summ, ', '.join(m['detected_by']) or 'not detected', 'yes' if m.get('history') else ''))
+    rows.append('| %s | %s | %s | %s |' % (m['id'], summ, ', '.join(m['detected_by']) or '**not detected**', 'yes' if (m.get('history') or m.get('after_strengthening')) else ''))
 n = len(rows)
 nstrength = sum(1 for r in rows if r.endswith('| yes |'))
 text = """### 8.6 Seeded changes: which check catches which change
 
-Three waves of seeded changes were written by fresh sub-agents that saw only the property text and a scratch worktree of the repository
-(never /verif); wave 2 and 3 were additionally told what had been tried before and asked for subtler changes (cooperating edits,
+Four waves of seeded changes were written by fresh sub-agents that saw only the property text and a scratch worktree of the repository
+(never /verif); waves 2-4 were additionally told what had been tried before and asked for subtler changes (cooperating edits,
 multi-step situations, unusual inputs). Three more were written by hand from the list in section 6. A change is kept under
 `seeded/<id>/` (patch.diff, demo.py, meta.json) only after I confirmed, in a scratch worktree of /repo HEAD, that the patch applies, the
 repository's fast suite still gives "358 passed, 68 skipped", the demo fails with the patch and passes without it; `tools/seedbatch.py`
 then runs the quick tier of the named check(s) against the patched worktree (evidence and replay files redirected to a scratch directory).
-%d changes are kept; all of them are detected by the current machinery; %d of them ("strengthened") were missed, skipped vacuously or
-ended in a harness error the first time - what was added each time is in the change's `history` field and in 8.7. One change (a one-shot
+%d changes are kept; all but one (C17b-w4, see its meta.json and 8.8) are detected by the current machinery; %d of them ("strengthened") were
+missed, skipped vacuously or ended in a harness error the first time - what was added each time is in the change's `history` /
+`after_strengthening` field and in 8.7 / 8.8. For wave 4 the `first_run` field records what the first complete quick run of the named check
+reported; where a placement had already been added earlier in the same session the field says so. Patches of earlier waves that no longer
+applied after the fix: commits of session 3 were rebased by hand (same edit on the new context) and re-checked. One change (a one-shot
 iterator passed as preserve list) was not kept: the property quantifies over lists and single strings.
 
 | id | seeded change (abridged) | detected by | strengthened |
